@@ -18,6 +18,81 @@ CHECKS = {
         ref="6/C02"),
 }
 
+
+CHECKS.update({
+    "C03": dict(
+        technique="Coq proof (every protocol's reply writer is well-formed for ANY message bytes; error statuses carry no body) + correspondence vs real filenotfound/write_status/handle + Coq validators run on real traffic + malformed-stream / history oracle",
+        text="Theorems over the model of each protocol's response writers (Model/Respond.v) and validators written from the protocol documents (Model/Wellformed.v): for every outcome of the handler chain (not-found, I/O error, document, directory) and every message/body byte string the reply is syntactically valid for its protocol, Gemini/Spartan error replies are exactly one status line. The model is compared with the real writers on thousands of messages and with real end-to-end replies; the Coq validators are run over every reply of the request stream. Totality of the handler chain, history independence and the time bound are decided by the oracle search (hand-written malformed stream per protocol, climbers, every path of generated trees, random bytes, 260+ histories), not by theorems.",
+        note="Trusts: Coq kernel; in-process driver; the handler chain's totality is searched, not proved (partial for that clause); wall-clock bound is runtime (measured). Two genuine history dependences are recorded as known findings.",
+        ref="6/C03, 12"),
+    "C04": dict(
+        technique="Coq proof (chunked copy = identity, decimal round trip, Gopher+ length, HEAD, WML invertibility, MIME precedence) + correspondence vs real code + byte-for-byte oracle over sizes around the copy block",
+        text="Theorems for all file contents and sizes: concatenating the 4096-byte chunks gives the file; a reference client reading each protocol's response gets exactly the file's bytes; the Gopher+ length header parses to the number of body bytes (unknown-length marker for transforming handlers); HEAD is GET's header block with an empty body; the WML text conversion is decodable line by line; the advertised type is the table type of the name with the documented precedence. Compared with the real code on files of sizes 0,1,4095..12289,1 MiB, binary/CRLF/invalid UTF-8 contents, awkward names, all protocols, two handler lists; mimetypes.guess_type compared exhaustively over the loaded tables.",
+        note="Trusts: Coq kernel; CPython UTF-8 codec for the WML model (code points); mimetypes tables as Section variables instantiated from the real module; decompression/TAL output taken as given; dates masked.",
+        ref="6/C04, 12"),
+    "C05": dict(
+        technique="Coq proof (per-protocol request/link round trip for all byte strings, built on proved percent and UTF-8/surrogateescape codecs) + correspondence vs real handle() routing/urlparse/parse_qs + exhaustive crawl oracle",
+        text="Theorems: for every byte string b (what the OS hands out as a name) and s = decode(b), the selector each protocol extracts from the request a client forms from the rendered link is slashnormalize s (Gopher family under the no-TAB/no-edge-blank condition the property states); likewise for search strings and for Gemini's prompt/redirect dance; listing selectors are fixed points of slashnormalize. Codec lemmas (unquote(quote b) = b, encode(decode b) = b) are proved for all inputs. The request model is compared with what the real protocol objects hand to getHandler on thousands of request lines; the semantic closure (every advertised local link is served) is decided by crawling generated trees with hostile names from / in all 9 protocol variants.",
+        note="Trusts: Coq kernel; urlsplit's bracket/NFKC checks not modelled (flagged inputs accepted either way); the closure over the handler chain is searched (crawl exhaustive per generated tree), not proved.",
+        ref="6/C05, 12"),
+    "C07": dict(
+        technique="Coq proof (entrycmp from the source = documented key order; stable sorts agree under a total preorder; listing = permutation of visible names, NoDup, order independent) + AST/conf translator + correspondence + permutation oracle",
+        text="Theorems for all directory contents and enumeration orders: the comparison function translated from UMN.py is the documented key order, any stable sort gives the model's result, a DirHandler/UMN listing contains exactly the visible, servable, not-hidden names once each, is independent of the enumeration order (UMN: for the repaired sorted walk; the pinned walk is refuted), and hidden files stay retrievable. The ignore pattern is compiled from conf on every run. Compared with the real handlers under all permutations (<=6 names) or 200 random ones, on names on both sides of every alternative.",
+        note="Trusts: Coq kernel; translator (entrycmp/sgn shape, regex subset); list.sort assumed to be a stable sort (cross-checked); child entries are inputs to the model.",
+        ref="6/C07, 12"),
+    "C08": dict(
+        technique="Coq proof (link-file parser = reference reading of the manual on well-formed files; add/override/hide/plus/order/abstract laws) + correspondence vs getLinkItem/processLinkFile and rendered menus + Python twin of the reference reading",
+        text="Theorems for all well-formed link files (any number of blocks, any subset and order of the seven line kinds, comments, continuation abstracts): the parser model equals the reference reading written from doc/pygopherd.txt; a non-./ block adds exactly one entry, a ./ block or .cap file overrides only the fields it sets, X and - hide, + means this server, the order is numbered/unnumbered/negative, sidecar abstracts become the abstract. Pinned deviations (Type=-, Numb reset, double hide) are refuted witnesses and were repaired in /repo. Compared with the real parser on 700 link files and with real menus in three extstrip modes.",
+        note="Trusts: Coq kernel; int() via a digit table; equality of MergeLinkFiles with the reference reading is proved per block, for whole block lists only under the oracle (apply_blocks_partial).",
+        ref="6/C08, 12"),
+    "C09": dict(
+        technique="Coq proof (one entry per line; classifier = independent reading of the gophermap docs on well-formed lines) + correspondence + Python twin of the spec through all protocols",
+        text="Theorems for all gophermap files: one entry per line in file order, the first bad line raises; on well-formed lines the classifier equals the reading of the documentation field by field (info text, type/description split, selector default, relative resolution against the directory, host/port default); the entry list is computed before and independently of the protocol. Compared with the real handler on generated gophermaps at depths 0-3 and as *.gophermap files through 9 protocol variants.",
+        note="Trusts: Coq kernel; int() model for ports (ASCII digits); padded fields outside the well-formedness predicate are covered by K only.",
+        ref="6/C09, 12"),
+    "C10": dict(
+        technique="Coq proof (invariant by induction over all finite histories of the cache state machine) + correspondence on real histories (os.utime clock) + independent oracle",
+        text="Theorems over every finite history of mutations, clock advances and listing requests (induction over fold_left step): a cached listing is the generated listing of the directory at the file's birth time; every hit returns exactly what an earlier request generated whatever the two protocols; every reply reflects the directory at most one lifetime ago; a hit never refreshes the age; lifetime 0 means always current. Compared with the real handler on histories of 5-40 operations with lifetimes 0, 2, 180 through 10 request syntaxes.",
+        note="Trusts: Coq kernel; pickle round trip is the identity on entry lists (checked through rendered listings); file mtime = time of the write; gen is a Section variable.",
+        ref="6/C10, 12"),
+    "C11": dict(
+        technique="Coq proof (repaired step: any undecodable cache content is a miss and is rewritten, for all histories) + exhaustive fault enumeration on the real code (every prefix length)",
+        text="Theorems: for the repaired loadcache, any strict prefix of a complete file and any undecodable content of any age is a cache miss that regenerates the listing and stores a fresh complete entry; the code never fails whatever the damage; the pinned code is refuted. The two codec facts needed (round trip, strict prefixes fail) are Section hypotheses discharged for a toy codec and checked exhaustively for real pickle on every prefix of every produced cache file. The real code is run on EVERY prefix length 0..size and zero/0xFF-filled files of each cache file (exhaustive), plus the ZIP index cache files.",
+        note="Trusts: Coq kernel; real pickle's framing is checked exhaustively per file, not proved; only dbm.dumb exists here so the ZIP shelve cache is never re-read (recorded).",
+        ref="6/C11, 12"),
+    "C12": dict(
+        technique="Coq proof (filter-map loop keeps every non-faulty child in order for all name lists and fault assignments) + fault injection on real trees",
+        text="Theorems for all name lists and all fault assignments: the repaired child loop returns Ok, the survivors are exactly the non-faulty names in their original order each with the entry its handler built (DirHandler and UMN child loop); a child can only fail with FileNotFound; the pinned mapM loop is refuted. Fault injection on the real code: every entry position x {dangling symlink, FIFO, socket, names with .. or ./, dot-named specials, stat failing with ENOENT/EACCES after enumeration} x singles and pairs x 9 protocols x both handlers.",
+        note="Trusts: Coq kernel; the security filter comes from Gen/Secure.v; which stat failures exist is an input to the model.",
+        ref="6/C12, 12"),
+    "C14": dict(
+        category="proof",
+        technique="Coq proof on an interleaving model (every schedule, any number of threads) + translator listing all module-level state + deterministic gate schedules and stress bursts on real threading/forking servers (PARTIAL: real schedules are stress only)",
+        text="Theorems over every schedule of N request threads broken into system-call-granularity actions: lazily initialised tables end up with the same values under any interleaving; each response equals the sequential one provided no request opens the cache for writing while another holds it open (C14_isolated_partial; the unconditional statement is kept visible with its codec hypothesis, which real pickle does not satisfy for holed files); the pinned reader racing a truncating writer is refuted. The shared-state hypothesis is checked against every global statement in pygopherd/ on each run. Real servers: 65 deterministic schedules at the cache-file gates, then bursts of 8/32 mixed plaintext+TLS requests against ThreadingTCPServer and ForkingTCPServer, liveness and reaping probes.",
+        note="PARTIAL: the model cannot exhibit GIL/OS scheduling, fork copy-on-write, the accept loop, TLS library state; those are exercised by stress only. Trusts: Coq kernel; translator (Globals unit).",
+        ref="6/C14, 12"),
+    "C15": dict(
+        technique="Coq proof (+INFO = plain menu line; block structure parsed by a reference parser; sidecar lines exact; length prefix) + correspondence + oracle vs files on disk",
+        text="Theorems for all entries and sidecar contents: the +INFO payload is byte for byte the plain Gopher line; parsing the ! reply with a reference block parser gives INFO, ADMIN, VIEWS(type, size/1024) then one block per sidecar and nothing else; a sidecar of printable lines appears as exactly its right-stripped lines (repaired getblock; one-blank-line files excepted and stated); block body lines can never be taken for headers; the + prefix is the exact length or the unknown marker. Compared with the real code on files/directories/mailbox items x all 16 sidecar subsets x ! $ +.",
+        note="Trusts: Coq kernel; dates masked; virtual items advertise no Gopher+ support and are checked for the three fixed blocks only.",
+        ref="6/C15, 12"),
+    "C16": dict(
+        technique="Coq proof (index built from any archive = lexical tree; VFS queries on the archive = queries on the extracted tree incl. link chains; links resolve only inside the index; fixpoint terminates; real-file-only guard) + AST translator for the vfs-type tests + correspondence vs VFSZip + archive-vs-extracted-tree oracle",
+        text="Theorems for all archives (induction; fuel lemma for the link fixpoint): lookup in the populated index is file iff a file member has that name, directory iff it is a prefix of a member, children exactly the next components; every canonical VFS query on the archive equals the same query on the extracted tree (class, bytes, children as sets) including link chains, absolute, dangling, cyclic and climbing links; links never consult anything but the index; a guarded real-file-only handler is never chosen inside an archive (the guard is read from mbox.py/pyg.py/scriptexec.py on every run). Compared with the real VFSZip structures and calls on hundreds of archives; responses for /T/<sel> vs /T.zip/<sel> compared through 9 protocols.",
+        note="Trusts: Coq kernel; zipfile (archive -> member list done by the real library); byte equality of rendered responses (same_site) is oracle only; link targets with . or empty components are covered by K and the oracle only.",
+        ref="6/C16, 12"),
+    "C19": dict(
+        technique="Coq proof by exhaustive kernel computation over the finite configuration x failure-position domain on an IR regenerated from initialization.py (translator) + exhaustive correspondence with the real start-up under substituted OS calls",
+        text="The start-up code (initialize, init_security, get_server) is translated on every run into a small IR with a big-step semantics; over all 96 option combinations x every external call failing in turn (3 error classes) it is proved by computation in the kernel (lifted with forallb_forall, the bound is in the statement) that bind and key loading precede every privilege change, chroot < setgroups < setregid < setreuid, setgroups present iff uid or gid, chroot is followed by root:=/ and chdir(/) before any identity change, and a failure at any position aborts with exactly the calls made so far. The real functions are run under recording fakes for all 4682 (configuration, failure) pairs and compared with the IR semantics.",
+        note="Trusts: Coq kernel (vm_compute casts); translator gen_init.py (IR shape, fail-closed); substituted os/pwd/grp/ssl entry points.",
+        ref="6/C19, 12"),
+    "C20": dict(
+        technique="Coq proof (containment, logging under the failure's own class, with-brackets closed, for every response shape, fault index, error class, protocol) + translator (handler clauses, open() sites) + exhaustive fault injection at every write index",
+        text="Theorems by induction over any list of write/bracket actions, any fault index, any error class and any protocol class: nothing propagates past the connection handler; every record logged after the fault carries the client address and the failure's own class (pinned args[1] handlers refuted); every with-bracket is closed on every path; the non-with open sites in the source equal the listed reference-counted resources (translator). The real handler is driven with a wfile failing at EVERY write index of documents, menus, error pages, Gopher+ info, mailbox and ZIP replies x EPIPE/ECONNRESET/one-argument timeout x protocols; log records and /proc/self/fd are checked.",
+        note="Trusts: Coq kernel; translator gen_conn.py; descriptor release of mailbox/ZIP objects happens at garbage collection (runtime, recorded separately; partial for that clause).",
+        ref="6/C20, 12"),
+})
+
 NOT_YET = {}
 
 
